@@ -132,10 +132,19 @@ impl GLWECompressed<Vec<u8>> {
 /// Deserializes the metadata (k, base2k, rank, seed) followed by the body data.
 impl<D: DataMut> ReaderFrom for GLWECompressed<D> {
     fn read_from<R: std::io::Read>(&mut self, reader: &mut R) -> std::io::Result<()> {
-        self.base2k = Base2K(reader.read_u32::<LittleEndian>()?);
-        self.rank = Rank(reader.read_u32::<LittleEndian>()?);
-        reader.read_exact(&mut self.seed)?;
-        self.data.read_from(reader)
+        // Temporaries first: `self` is only touched once the whole object has been read.
+        let base2k: Base2K = Base2K(reader.read_u32::<LittleEndian>()?);
+        let rank: Rank = Rank(reader.read_u32::<LittleEndian>()?);
+        let mut seed: [u8; 32] = [0u8; 32];
+        reader.read_exact(&mut seed)?;
+        if base2k.0 == 0 {
+            return Err(std::io::Error::new(std::io::ErrorKind::InvalidData, "GLWECompressed: base2k = 0"));
+        }
+        self.data.read_from(reader)?;
+        self.base2k = base2k;
+        self.rank = rank;
+        self.seed = seed;
+        Ok(())
     }
 }
 
